@@ -319,10 +319,10 @@ func init() {
 				"and be byte-identical to the output of the same patch with its (passing) test operations deleted"}
 		if tier == "thorough" {
 			d := *p
-			d.Docs = docs[:9]
+			d.Docs = []string{docs[0], docs[2], docs[5], docs[7]}
 			d.Depth = 3
-			d.Alpha = []*AlphaCfg{a, {Values: vals[:2], ReplValues: vals[:1]}, {Values: vals[:1], ReplValues: vals[:1], Kinds: kinds("test", "add", "move", "copy")}}
-			d.Rule = "DEPTH 3 on the first 7 documents with reduced second/third alphabets; same oracle"
+			d.Alpha = []*AlphaCfg{a, {Values: vals[:2], ReplValues: vals[:1], MaxFroms: 4}, {Values: vals[:1], ReplValues: vals[:1], Kinds: kinds("test", "add", "move", "copy"), MaxFroms: 4}}
+			d.Rule = "DEPTH 3 on four documents with reduced second/third alphabets; same oracle"
 			return []*seqProp{p, &d}
 		}
 		return []*seqProp{p}
